@@ -4359,7 +4359,12 @@ void SoPlexBase<R>::_untransformUnbounded(SolRational& sol, bool unbounded)
    else if(boolParam(SoPlexBase<R>::TESTDUALINF) && sol._isPrimalFeasible
            && sol._primal[numOrigCols] <= _rationalFeastol)
    {
-      const Rational& alpha = sol._dual[numOrigRows];
+      // the multiplier of the objective row is -1 (up to the tolerance) for a maximization problem and +1 for a
+      // minimization problem: dual multipliers follow the sign convention of the objective sense
+      Rational alpha = sol._dual[numOrigRows];
+
+      if(intParam(SoPlexBase<R>::OBJSENSE) == SoPlexBase<R>::OBJSENSE_MINIMIZE)
+         alpha *= -1;
 
       assert(sol._isDualFeasible);
       assert(alpha <= _rationalFeastol - _rationalPosone);
